@@ -826,7 +826,21 @@ Spec == Init /\ [][Next]_vars
 (***************************************************************************)
 NoViolation == g.viol = {}
 Done == st.pc = "DONE"
-\* liveness (C14): every started check delivers its result
-CheckEnds == (st.pc = "P4a") ~> (st.pc \in {"R11", "R12", "END", "DONE"})
-Fair == WF_vars(Next)
+
+(***************************************************************************)
+(* Liveness, checked without a state constraint under weak fairness of the *)
+(* machine and of the completion of every awaited operation (the           *)
+(* environment's budgets make every behaviour finite, so these say: no     *)
+(* behaviour gets stuck before ...).                                       *)
+(***************************************************************************)
+FairSpec == Spec /\ WF_vars(Next)
+\* C14: every started check delivers its result
+InCheckPc == st.pc \notin {"B0", "R4", "R5", "R7", "R8", "R11", "R12", "W1", "W2", "W3", "W9", "G2", "END", "DONE"}
+                /\ ~(st.pc \in {"O2", "OP", "O4"} /\ st.rq.kind = "ping")
+CheckEnds == InCheckPc ~> (g.c.nResult >= 1 \/ st.nCrash > 0)
+ResultDelivered == [](InCheckPc => <>(~InCheckPc))
+\* C11: every control request is eventually answered
+RequestsAnswered == (g.ctlOut # {}) ~> (g.ctlOut = {})
+\* C13 / C14: the flow never deadlocks short of the end of the behaviour
+Terminates == <>(st.pc = "DONE")
 =============================================================================
